@@ -743,3 +743,21 @@ Lemma dashes_pinned_refuted :
      (csvhead 2 3 (CDict example_dict) (gen_lines "2026-01-01 00:00:00" "me" (NoSys "s.py")))))
     = Some "---------- x".
 Proof. split; vm_compute; reflexivity. Qed.
+
+(* ------------------------------------------------------------------ *)
+(* comment given as a single string: stored under the key "comment"     *)
+
+Theorem string_comment_roundtrip : forall nrow ncol s time author e,
+  okval s = true -> env_ok e ->
+  let c := header2comment (map strip_hash (csvhead nrow ncol (CStr s) (gen_lines time author e))) in
+  lookup "nrow" c = Some (dec_N nrow) /\ lookup "ncol" c = Some (dec_N ncol) /\
+  lookup "comment" c = Some s.
+Proof.
+  intros nrow ncol s time author e Hs He.
+  change (csvhead nrow ncol (CStr s) (gen_lines time author e))
+    with (csvhead nrow ncol (CDict [("comment", s)]) (gen_lines time author e)).
+  destruct (comments_roundtrip nrow ncol [("comment", s)] time author e) as (H1 & H2 & H3); auto.
+  - repeat constructor. intros [].
+  - repeat constructor. simpl. exact Hs.
+  - repeat split; auto. apply H3. now left.
+Qed.
